@@ -9,6 +9,8 @@ import NostrRelay.Model.KV
 import NostrRelay.Model.SQL
 import NostrRelay.Model.Json
 import NostrRelay.Model.Admission
+import NostrRelay.Model.Proto
+import NostrRelay.Model.Live
 
 open Lean
 
@@ -212,6 +214,49 @@ def parseOps (j : Json) : List SetOp :=
 
 end AD
 
+namespace PD
+open NostrRelay.Proto
+
+def natOf (j : Json) (k : String) : Nat := (getInt j k).toNat
+def natList (j : Json) (k : String) : List Nat := (getArr j k).toList.map fun x => (x.getInt?.toOption.getD 0).toNat
+def n2j (n : Nat) : Json := Json.num (JsonNumber.fromNat n)
+
+def frameJson : Frame → Json
+  | .event s e => Json.arr #[Json.str "EVENT", n2j s, n2j e]
+  | .eose s => Json.arr #[Json.str "EOSE", n2j s]
+  | .ok e b => Json.arr #[Json.str "OK", n2j e, Json.bool b]
+  | .notice => Json.arr #[Json.str "NOTICE"]
+
+/-- one client message (or disconnect), then the settled schedule; `none` = the label was not enabled -/
+def runMsg (s : State) (m : Json) : Option State :=
+  let c := natOf m "c"
+  let fuel := 1000000
+  let pairs : List (Nat × Nat) := (getArr m "match").toList.map fun p =>
+    match p.getArr?.toOption.getD #[] with
+    | #[a, b] => ((a.getInt?.toOption.getD 0).toNat, (b.getInt?.toOption.getD 0).toNat)
+    | _ => (0, 0)
+  let lbl : Label := match getStr m "t" with
+    | "connect" => .connect c
+    | "req" => .req c (natOf m "sub") (AD.getBool m "usable") (AD.getBool m "allowed") (natList m "answer")
+    | "close" => .close c (natOf m "sub")
+    | "event" => .event c (natOf m "ev") (AD.getBool m "accepted")
+    | _ => .disconnect c
+  (step s lbl).map fun s1 => settle s1 (fun _ i => pairs.contains (s1.owner i)) fuel
+
+def session (j : Json) : Json :=
+  let s0 : State := { subLimit := natOf j "limit", eoseOnCancel := AD.getBool j "eoc" }
+  let (_, out) := (getArr j "msgs").toList.foldl (fun (acc : State × List Json) m =>
+    let (s, out) := acc
+    match runMsg s m with
+    | none => (s, out ++ [Json.str "disabled"])
+    | some s' =>
+      let frames := s'.connIds.map fun c => Json.arr #[n2j c, Json.arr (((s'.transcript c).drop (s.transcript c).length).map frameJson).toArray]
+      let subs := s'.registry.map fun r => Json.arr #[n2j r.conn, n2j r.name]
+      (s', out ++ [Json.mkObj [("frames", Json.arr frames.toArray), ("subs", Json.arr subs.toArray)]])) (s0, [])
+  Json.arr out.toArray
+
+end PD
+
 structure St where
   rlCfg : NostrRelay.RateLimiter.Config := {}
   rl : NostrRelay.RateLimiter.State := {}
@@ -295,6 +340,11 @@ def step (st : St) (j : Json) : St × Json :=
     let cur := AD.bytesList (j.getObjVal? "cur" |>.toOption.getD Json.null)
     let obs := NostrRelay.Admission.observable cur (AD.parseOps (j.getObjVal? "ops" |>.toOption.getD Json.null))
     (st, Json.arr (obs.map fun st => Json.arr ((st.map toHex).toArray.qsort (· < ·) |>.map Json.str)).toArray)
+  | "proto.session" => (st, PD.session j)
+  | "live.match" =>
+    let fs := SQLD.parseFilters j
+    let e := KVD.parseEvent (j.getObjVal? "ev" |>.toOption.getD Json.null)
+    (st, Json.bool (NostrRelay.KV.liveMatch fs e))
   | "nt.read" => (st, jHexList (NostrRelay.Notifier.readLoop 32 (by decide) [] (hexList j "chunks")))
   | "nt.readOld" => (st, jHexList (NostrRelay.Notifier.readLoopOld 32 (by decide) [] (hexList j "chunks")))
   | op => (st, Json.mkObj [("error", Json.str ("unknown op " ++ op))])
